@@ -32,14 +32,22 @@ def _worker(pid: str, tier: str, seed: int, shard: int, nshards: int, out: str) 
     ctx = core.Ctx(pid, tier, seed, shard, nshards)
     status = "ok"
     reason = None
+    from vf.monitors import AnchorCoverage
+
+    coverage = AnchorCoverage(_anchor_files(pid))
     try:
-        asyncio.run(mod.run(ctx))
+        with coverage:
+            asyncio.run(mod.run(ctx))
     except core.Inconclusive as inc:
         status, reason = "inconclusive", str(inc)
     except BaseException:  # pylint:disable=broad-except
         # the harness itself broke: that is neither "held" nor a violation of the property
         status, reason = "crashed", traceback.format_exc()
     res = ctx.result()
+    try:
+        res["anchor_coverage"] = coverage.summary()
+    except Exception:  # pylint:disable=broad-except  (informational only)
+        res["anchor_coverage"] = {}
     res["status"] = status
     res["reason"] = reason
     tmp = out + ".tmp"
@@ -47,6 +55,20 @@ def _worker(pid: str, tier: str, seed: int, shard: int, nshards: int, out: str) 
         json.dump(res, f)
     os.replace(tmp, out)
     return 0
+
+
+def _anchor_files(pid: str):
+    """the anchor files of the property (from properties.jsonl)"""
+    try:
+        with open(os.path.join(core.VERIF, "properties.jsonl"), encoding="utf-8") as f:
+            for line in f:
+                if line.strip():
+                    prop = json.loads(line)
+                    if prop["id"] == pid:
+                        return list(prop["anchors"]["files"])
+    except (OSError, ValueError, KeyError):
+        pass
+    return []
 
 
 def _replay(pid: str, path: str) -> int:
@@ -119,6 +141,7 @@ def _orchestrate(pid: str, tier: str, seed: int) -> int:
     except OSError:
         pass
 
+    anchor: dict = {}
     counters: Counter = Counter()
     distinct: set = set()
     overflow = 0
@@ -140,6 +163,9 @@ def _orchestrate(pid: str, tier: str, seed: int) -> int:
                     cur.append(s)
         for k, v in res.get("notes", {}).items():
             notes.setdefault(k, v)
+        for fn, cov in res.get("anchor_coverage", {}).items():
+            cur = anchor.setdefault(fn, {"lines_in_functions": cov["lines_in_functions"], "not_reached": set(cov["not_reached"]), "truncated": len(cov["not_reached"]) >= 60})
+            cur["not_reached"] &= set(cov["not_reached"])
         violations.extend(res.get("violations", []))
         violation_counts.update(res.get("violation_counts", {}))
 
@@ -177,6 +203,9 @@ def _orchestrate(pid: str, tier: str, seed: int) -> int:
         "violation_kinds": dict(violation_counts),
     }
     coverage.update(notes)
+    coverage["anchor_lines_observed_executing"] = {
+        fn: {"lines_in_functions": cov["lines_in_functions"], "not_reached_by_any_shard": sorted(cov["not_reached"]), "list_truncated": cov["truncated"]} for fn, cov in sorted(anchor.items())
+    }
     evidence = {
         "property_id": pid,
         "tier": tier,
